@@ -243,6 +243,15 @@ def conv_into(ip, st, ci):
         return ("iobuf", tg, tg, ip.sizeof(crate(ci), et))
     if v[0] == "bytes" and ip.is_bytes_ty(crate(ci), dest_ty(ip, ci)):
         return v
+    if v[0] == "int" and dt["k"] == "uint" and dt["name"] not in ("usize",):
+        # lossless widening From<uN> for uM: the same uninterpreted function as an `as` cast
+        w = int(dt["name"][1:])
+        if w == v[1][1]:
+            return v
+        if w > v[1][1]:
+            if not v[1][3]:
+                return vint(T.iconst(w, v[1][2]))
+            return vint(T.ifn(w, "cast_u%d_to_u%d" % (v[1][1], w), v[1]))
     raise Undecided("Into::into from %s to %s" % (v[0], dt["s"]))
 
 
@@ -657,6 +666,17 @@ def result_ok(ip, st, ci):
 
 
 def _call_closure(ip, st, ci, clo, args):
+    byref = None
+    if clo[0] == "ref":
+        # `&mut F` / `&F` is itself callable: the call goes to the closure behind the reference
+        pv = ip.load(st, clo[1])
+        hops = 0
+        while pv[0] == "ref" and hops < 4:
+            clo = pv
+            pv = ip.load(st, clo[1])
+            hops += 1
+        if pv[0] == "closure":
+            byref, clo = clo, pv
     if clo[0] != "closure":
         raise Undecided("callee is %s, not a closure" % clo[0])
     cr = crate(ci)
@@ -666,9 +686,12 @@ def _call_closure(ip, st, ci, clo, args):
     self_arg = clo
     t1 = cr.types[body["locals"][1]["ty"]]
     if t1["k"] == "ref":
-        cell = ("clo", len(st.heap))
-        st.heap[cell] = clo
-        self_arg = vref(Target(cell))
+        if byref is not None:
+            self_arg = byref
+        else:
+            cell = ("clo", len(st.heap))
+            st.heap[cell] = clo
+            self_arg = vref(Target(cell))
     a = [self_arg] + list(args)
     if body["arg_count"] == 2 and len(args) != 1:
         a = [self_arg, ("tuple", list(args))]
@@ -1113,6 +1136,41 @@ def split_first_mut(ip, st, ci):
     return out
 
 
+@prim("core::slice::<impl [T]>::get", "core::slice::<impl [T]>::get_mut")
+def slice_get(ip, st, ci):
+    """get(i) / get(a..b) / get(a..) / get(..b): Some(in-bounds element or sub-slice) or None."""
+    tg = tg_of(ci["args"][0])
+    idx = ci["args"][1]
+    esz = ip.sizeof(crate(ci), fn_targs(ci)[0])
+    total = ip.tlen(st, tg)
+    if idx[0] == "size":
+        lo, ln, conds = idx[1] * esz, esz, [("ge", total - (idx[1] + 1) * esz)]
+    elif idx[0] == "range":
+        lo, hi = idx[1][1] * esz, idx[2][1] * esz
+        ln, conds = hi - lo, [("ge", hi - lo), ("ge", total - hi)]
+    elif idx[0] == "struct" and idx[1].endswith("RangeFrom"):
+        lo = idx[2]["start"][1] * esz
+        ln, conds = total - lo, [("ge", total - lo)]
+    elif idx[0] == "struct" and idx[1].endswith("RangeTo"):
+        lo, ln = ZERO, idx[2]["end"][1] * esz
+        conds = [("ge", total - ln)]
+    else:
+        raise Undecided("slice get with %s" % (idx[:2],))
+    states = [(st, True)]
+    for c in conds:
+        nxt = []
+        for s, ok in states:
+            if not ok:
+                nxt.append((s, False))
+                continue
+            nxt.extend(fork_on(s, c))
+        states = nxt
+    out = []
+    for s, ok in states:
+        out.append((s, vsome(vref(ip.br(tg, lo, ln))) if ok else vnone()))
+    return out
+
+
 @prim("ops::Fn::call", "ops::FnMut::call_mut", "ops::FnOnce::call_once")
 def fn_call(ip, st, ci):
     f = ci["args"][0]
@@ -1200,9 +1258,12 @@ def slice_fill(ip, st, ci):
     tg = tg_of(ci["args"][0])
     v = ci["args"][1]
     total = ip.tlen(st, tg)
-    if v[0] == "bytes" and T.blen(v[1]) == ONE:
+    v = ip.encode(st, v) if v[0] == "int" else v
+    if v[0] == "bytes":
+        esz = T.blen(v[1])
+        n = count_of(st, total, esz)
         j = T.fresh("$f")
-        ip.store(st, ip.br(tg, ZERO, total), vbytes(T.bnorm((("m", j, ZERO, total, ONE, v[1]),), st.F)))
+        ip.store(st, ip.br(tg, ZERO, total), vbytes(T.bnorm((("m", j, ZERO, n, esz, v[1]),), st.F)))
         return vunit()
     raise Undecided("fill with %s" % v[0])
 
@@ -1271,7 +1332,7 @@ def iter_for_each(ip, st, ci):
     def runner(s, idx):
         out = []
         for s2, e in iter_elem_multi(ip, s, it, idx):
-            if clo[0] == "closure":
+            if clo[0] in ("closure", "ref"):
                 res = _call_closure(ip, s2, ci, clo, [e])
             elif clo[0] == "fn":
                 ci2 = dict(ci)
